@@ -236,6 +236,17 @@ def sem (c : Ctx) (body : Stmt) : List Act :=
 /-- `clr` marks the place where the object forgets a released pointer; it changes nothing -/
 def noClr (acts : List Act) : List Act := acts.filter (fun a => match a with | .clr _ => false | _ => true)
 
+/-! ### bodies that only call translated members (`Variant::swap`) -/
+
+inductive Obj | this | arg | tmp
+deriving DecidableEq, Repr
+
+inductive Call
+  | copyCtor (dst src : Obj)     -- `Variant dst = src;`
+  | assign (dst src : Obj)       -- `dst = src;`
+  | dtor (x : Obj)               -- end of the scope of the temporary
+deriving Repr
+
 /-! ### the uncounted field `obj` of RefCount::Ptr mirrors the counted field `refObj` -/
 
 /-- the stores of one field, locals resolved to what they were bound to, in program order (both branches of an `if`) -/
